@@ -233,7 +233,7 @@ fn run_case(prop: &str, case: &Line) -> Outcome {
   let mut n_updates = 0;
   let mut stale_possible; // node chain not longer than the index: stale blocks may legitimately stay
   let mut check_content = false;
-  let mut reorg_pending = false; // the node changed branch since the last update
+  let mut reorg_pending = false; // the node changed branch at some point of the history
   let last_update_pos = case.iter().rposition(|z| z.mag == 2 && !z.neg).unwrap_or(0);
   while !c.at_end() && !w.abandoned {
     match c.u64() {
@@ -250,8 +250,9 @@ fn run_case(prop: &str, case: &Line) -> Outcome {
         }
         let index = w.index();
         let before = index.verif_dump().expect("dump").height_to_block_header.len();
+        // the node offers no block beyond the index: after a branch change the index may
+        // legitimately still hold the old branch (nothing tells it otherwise)
         stale_possible = w.tip() + 1 <= before && reorg_pending;
-        reorg_pending = false;
         let (tx, rx) = mpsc::channel();
         let idx = index.clone();
         let worker = std::thread::spawn(move || {
